@@ -2,9 +2,12 @@
    sc_log, sc_logv, sc_set_log_defaults and the SC_GEN_LOG* macros are GENERATED from /repo's current
    source (Gen/LogC19.v); the state around them is the model C19/LogModel.v, tied to the
    implementation by the exhaustive correspondence run of checks/C19.py.
+   The PACKAGE REGISTRY (sc_package_register / unregister / is_registered / set_verbosity, sc_finalize_noabort,
+   sc_log_indent_*, the decisions of the built-in handler) is GENERATED as well (Gen/PkgC19.v); the machine that
+   executes the generated functions on a concrete table (C19/PkgModel.v) refines the model for every history.
    This file contains only statements, `exact` proofs and Print Assumptions. *)
 From Coq Require Import ZArith List Bool.
-From ScV Require Import Base.CInt Gen.LogC19 C19.LogModel C19.LogProofs C19.LogMachine.
+From ScV Require Import Base.CInt Gen.LogC19 Gen.PkgC19 C19.LogModel C19.LogProofs C19.LogMachine C19.PkgModel C19.PkgProofs C19.LogHistories.
 Import ListNotations.
 Local Open Scope Z_scope.
 Local Open Scope bool_scope.
@@ -305,3 +308,225 @@ Example C19_ex_logv_unregistered :
     /\ deliveries evs = [(0, 1, 2, -1, 2, 5, 7); (0, 1, 2, -1, 2, 5, 8); (0, 1, 2, -1, 2, 5, 9); (0, 1, 2, -1, 2, 5, 10);
                          (0, 1, 2, -1, 2, 8, MSG_INVALID_ID); (0, 1, 2, -1, 2, 5, 11); (0, 2, 2, 0, 2, 5, 12)].
 Proof. eexists; eexists; split; vm_compute; reflexivity. Qed.
+
+
+(* ============================================================================================== *)
+(* The package registry: generated functions (Gen/PkgC19.v) on the concrete table (C19/PkgModel.v) *)
+(* ============================================================================================== *)
+
+(* sc_package_is_registered, for EVERY table and EVERY value num of the counter sc_num_packages: the bound is the size
+   of the TABLE (sc_num_packages_alloc), never the count; the slot's
+   is_registered decides; the only effect is the Invalid-package-id message for negative ids *)
+Theorem C19_gen_is_registered : forall (dbg : bool) t num pkgid id,
+  (if dbg then sc_package_is_registered_dbg else sc_package_is_registered) (m_reg t) num (Z.of_nat (length t)) pkgid id =
+  ((if id <? 0 then [(4, id, 0, pkgid, c19_const_lc_normal, c19_const_lp_error, MSG_INVALID_ID)] else []),
+   b2z (table_reg (abs t) id)).
+Proof. exact gen_is_registered. Qed.
+Print Assumptions C19_gen_is_registered.
+
+Theorem C19_gen_is_registered_message : forall (dbg : bool) st id,
+  flat_map (expand_own st)
+    (fst ((if dbg then sc_package_is_registered_dbg else sc_package_is_registered) (m_reg []) 0 0 (s_pkgid st) id)) =
+  isreg_side dbg st id.
+Proof. exact gen_is_registered_message. Qed.
+Print Assumptions C19_gen_is_registered_message.
+
+(* sc_package_set_verbosity: aborts unless the id is registered and the threshold valid; else ONE store, into the
+   threshold of that slot; the abstraction is the model's update *)
+Theorem C19_gen_set_verbosity : forall junk c pkgid id thr,
+  k_set_verbosity junk c pkgid id thr =
+  (if table_reg (abs (c_slots c)) id && valid_thr thr
+   then Some (mkcreg (upd (c_slots c) id (setf 3 thr)) (c_num c)) else None)
+  /\ (table_reg (abs (c_slots c)) id = true ->
+      abs (upd (c_slots c) id (setf 3 thr)) =
+      set_nth (Z.to_nat id) (mkpkg true (p_handler (tnth (abs (c_slots c)) id)) thr) (abs (c_slots c))).
+Proof. intros; split; [exact (gen_set_verbosity junk c pkgid id thr)|exact (abs_set_verbosity (c_slots c) id thr)]. Qed.
+Print Assumptions C19_gen_set_verbosity.
+
+(* sc_package_unregister (with sc_package_unregister_noabort and sc_query_doabort inside): aborts for an id that is
+   not registered; else is_registered := 0, handler := NULL, threshold := SC_LP_DEFAULT, the mutex destroyed,
+   sc_num_packages decremented - the slot stays in the table (a HOLE), its indentation is not reset *)
+Theorem C19_gen_unregister : forall junk c pkgid id,
+  k_unregister junk c pkgid 1 id =
+  (if table_reg (abs (c_slots c)) id
+   then Some (mkcreg (upd (c_slots c) id unreg_slot) (s32 (c_num c - 1)),
+              [(8, 2, 0, id, 0, 0, 0); (6, 1, 0, id, 0, 0, 0); (6, 2, 0, id, 0, 0, 0); (6, 3, 0, id, 0, 0, -1); (8, 5, 0, id, 0, 0, 0)])
+   else None)
+  /\ (0 <= id < Z.of_nat (length (c_slots c)) ->
+      abs (upd (c_slots c) id unreg_slot) = set_nth (Z.to_nat id) (mkpkg false 0 c19_const_lp_default) (abs (c_slots c))).
+Proof. intros; split; [exact (gen_unregister junk c pkgid id)|exact (abs_unregister (c_slots c) id)]. Qed.
+Print Assumptions C19_gen_unregister.
+
+(* sc_package_register with its three loops, on EVERY table below 2^30 slots and whatever realloc leaves in new
+   memory: first slot that is not registered (ids are reused, holes are filled), else growth to 2 n + 1 slots,
+   initialised unregistered / NULL / SILENT / indent 0, slot n taken; invalid threshold aborts *)
+Theorem C19_gen_register : forall junk c h thr,
+  c_alloc c < MAXSLOTS ->
+  k_register junk c h thr =
+  if valid_thr thr then
+    match first_free (abs (c_slots c)) 0 with
+    | Some i => Some (mkcreg (upd (c_slots c) (Z.of_nat i) (new_slot h thr)) (s32 (c_num c + 1)), Z.of_nat i)
+    | None => Some (mkcreg (c_slots c ++ new_slot h thr junk :: repeat (init_slot junk) (length (c_slots c))) (s32 (c_num c + 1)),
+                    Z.of_nat (length (c_slots c)))
+    end
+  else None.
+Proof. exact gen_register. Qed.
+Print Assumptions C19_gen_register.
+
+Theorem C19_gen_register_model : forall junk c h thr c' id,
+  k_register junk c h thr = Some (c', id) ->
+  valid_thr thr = true /\ c_alloc c < MAXSLOTS
+  /\ register (abs (c_slots c)) h thr = (Z.to_nat id, abs (c_slots c')) /\ 0 <= id
+  /\ c_alloc c' < 2147483648.
+Proof. exact k_register_model. Qed.
+Print Assumptions C19_gen_register_model.
+
+(* sc_finalize_noabort: sc_package_unregister_noabort is called for exactly the registered slots from the top of the
+   TABLE (sc_num_packages_alloc - 1) down to 0, then the table is freed; identifier, trace file, sc_package_id reset *)
+Theorem C19_gen_finalize : forall junk c tfile pkgid, c_alloc c < 2147483648 ->
+  exists c', k_finalize junk c tfile pkgid =
+    Some (c', (-1, 0, -1),
+          call_evs (m_reg (c_slots c)) (down (length (c_slots c))) ++ [(8, 2, 0, -1, 0, 0, 0); (7, 1, 0, 0, 0, 0, 0)])
+  /\ c_slots c' = [].
+Proof. exact gen_finalize. Qed.
+Print Assumptions C19_gen_finalize.
+
+(* REFINEMENT: the machine that executes the generated registry functions on the concrete table does, step by step
+   and for every history, what the model does on the abstraction; and below 2^30 slots it is defined wherever the
+   model is *)
+Theorem C19_registry_refines_step : forall junk dbg k o k' evs, kbound k ->
+  kstep junk dbg k o = Some (k', evs) ->
+  step dbg (k_view k) o = Some (k_view k', evs) /\ kbound k'.
+Proof. exact kstep_refines. Qed.
+Print Assumptions C19_registry_refines_step.
+
+Theorem C19_registry_complete_step : forall junk dbg k o v' evs, c_alloc (kc k) < MAXSLOTS ->
+  step dbg (k_view k) o = Some (v', evs) ->
+  exists k', kstep junk dbg k o = Some (k', evs) /\ k_view k' = v'.
+Proof. exact kstep_complete. Qed.
+Print Assumptions C19_registry_complete_step.
+
+(* ... for every history from the initial state, down to the finite map id -> (handler, threshold) *)
+Theorem C19_registry_refines_history : forall junk dbg ops k evs,
+  krun junk dbg (k_init dbg) ops = Some (k, evs) ->
+  run dbg (init_state dbg) ops = Some (k_view k, evs)
+  /\ forall id, lookup (k_view k) id =
+       if (0 <=? id) && (id <? c_alloc (kc k)) && z2b (m_reg (c_slots (kc k)) id)
+       then Some (m_handler (c_slots (kc k)) id, m_thr (c_slots (kc k)) id) else None.
+Proof. exact krun_from_init. Qed.
+Print Assumptions C19_registry_refines_history.
+
+(* log indentation: compiled out in the pinned configuration; without SC_ENABLE_PTHREAD one store per call *)
+Theorem C19_gen_indent : forall t id count,
+  sc_log_indent_push_count = [] /\ sc_log_indent_pop_count = []
+  /\ sc_log_indent_push_count_np (m_indent t) id count =
+     (if 0 <=? id then [(6, 4, 0, id, 0, 0, s32 (m_indent t id + Z.max 0 count))] else [])
+  /\ sc_log_indent_pop_count_np (m_indent t) id count =
+     (if 0 <=? id then [(6, 4, 0, id, 0, 0, Z.max 0 (s32 (m_indent t id - Z.max 0 count)))] else []).
+Proof. exact gen_indent. Qed.
+Print Assumptions C19_gen_indent.
+
+Theorem C19_indent_per_package : forall junk c id count, 0 <= id < c_alloc c ->
+  let c1 := k_indent_push junk c id count in
+  let c2 := k_indent_pop junk c id count in
+  abs (c_slots c1) = abs (c_slots c) /\ abs (c_slots c2) = abs (c_slots c)
+  /\ m_indent (c_slots c1) id = s32 (m_indent (c_slots c) id + Z.max 0 count)
+  /\ m_indent (c_slots c2) id = Z.max 0 (s32 (m_indent (c_slots c) id - Z.max 0 count))
+  /\ (forall j, 0 <= j -> j <> id -> snth (c_slots c1) j = snth (c_slots c) j /\ snth (c_slots c2) j = snth (c_slots c) j)
+  /\ 0 <= m_indent (c_slots c2) id.
+Proof. exact indent_effect. Qed.
+Print Assumptions C19_indent_per_package.
+
+(* the built-in handler: package name printed iff the (effective) package is not -1, identifier printed iff NORMAL
+   and identifier >= 0, file:line iff TRACE, indentation of that package - what LogModel.observe shows *)
+Theorem C19_gen_log_handler : forall st t x s c q m,
+  let p := eff_pkg st x in
+  sc_log_handler_decide (is_reg st) (m_indent t) (s_ident st) p c =
+  ([], p, b2z (negb (p =? -1)), b2z ((c =? c19_const_lc_normal) && (0 <=? s_ident st)), if p =? -1 then 0 else m_indent t p)
+  /\ (let '(_, _, wp, wi, _) := sc_log_handler_decide (is_reg st) (m_indent t) (s_ident st) p c in
+      observe st (0, BUILTIN, s, p, c, q, m) = (0, BUILTIN, s, wp, wi, b2z (sc_log_handler_trace_cond q), m)).
+Proof. intros; split; [exact (gen_log_handler_decide st t x c)|exact (observe_is_handler_decision st t x s c q m)]. Qed.
+Print Assumptions C19_gen_log_handler.
+
+(* ============================================================================================== *)
+(* Histories                                                                                       *)
+(* ============================================================================================== *)
+Theorem C19_unregister_then_default : forall dbg st id st' evs,
+  step dbg st (OUnregister id) = Some (st', evs) ->
+  (forall c q m, log_st st' id c q m = log_st st' (-1) c q m)
+  /\ (forall c q m, logv_st st' id c q m = logv_st st' (-1) c q m)
+  /\ eff_pkg st' id = -1 /\ eff_threshold st' id = s_dthr st /\ eff_handler st' id = s_dhandler st
+  /\ forall j, j <> id -> eff_pkg st' j = eff_pkg st j /\ eff_threshold st' j = eff_threshold st j /\ eff_handler st' j = eff_handler st j.
+Proof. exact unregister_then_default. Qed.
+Print Assumptions C19_unregister_then_default.
+
+Theorem C19_reregister_fresh : forall dbg st id st1 e1 h thr st2 e2,
+  step dbg st (OUnregister id) = Some (st1, e1) ->
+  (forall j, 0 <= j < id -> lookup st j <> None) ->
+  step dbg st1 (ORegister h thr) = Some (st2, e2) ->
+  e2 = [(5, 0, 0, id, 0, 0, 0)] /\ lookup st2 id = Some (h, thr)
+  /\ eff_threshold st2 id = (if thr =? c19_const_lp_default then s_dthr st else thr)
+  /\ eff_handler st2 id = (if h =? 0 then s_dhandler st else h)
+  /\ forall j, j <> id -> lookup st2 j = lookup st j.
+Proof. exact reregister_fresh. Qed.
+Print Assumptions C19_reregister_fresh.
+
+Theorem C19_set_defaults_after_registration : forall dbg st stream h thr st' evs,
+  step dbg st (OSetDefaults stream h thr) = Some (st', evs) ->
+  let dh := if h =? 0 then BUILTIN else h in
+  let dt := if thr =? c19_const_lp_default then lp_threshold dbg else thr in
+  forall id,
+    lookup st' id = lookup st id
+    /\ eff_handler st' id = match lookup st id with Some (h0, _) => if h0 =? 0 then dh else h0 | None => dh end
+    /\ eff_threshold st' id = match lookup st id with Some (_, t0) => if t0 =? c19_const_lp_default then dt else t0 | None => dt end
+    /\ eff_stream st' = (if stream =? 0 then STDOUT else stream).
+Proof. exact set_defaults_after_registration. Qed.
+Print Assumptions C19_set_defaults_after_registration.
+
+(* ALL sequences of threshold changes of a package, a message after each: message k is judged by threshold k *)
+Theorem C19_threshold_sequence : forall dbg id c q m ts st h t0,
+  lookup st id = Some (h, t0) -> forallb valid_thr ts = true ->
+  exists st' evs,
+    run dbg st (flat_map (fun t => [OSetVerbosity id t; OLog id c q m]) ts) = Some (st', evs)
+    /\ deliveries evs = flat_map (judged st h id c q m) ts
+    /\ same_globals st st' /\ lookup st' id = Some (h, last ts t0).
+Proof. exact threshold_sequence. Qed.
+Print Assumptions C19_threshold_sequence.
+
+(* --- non-vacuity ------------------------------------------------------------------------------- *)
+(* the machine of generated functions runs a history with growth 0 -> 1 -> 3 -> 7 slots, holes, reuse of ids,
+   messages in between and a finalize; junk = what realloc leaves in new memory *)
+Example C19_ex_registry_history :
+  let junk := mkslot 77 78 79 80 81 in
+  exists k evs,
+    krun junk false (k_init false)
+      [OSetDefaults 2 1 3; ORegister 2 0; ORegister 3 1; ORegister 4 2; ORegister 5 3; OUnregister 1; OUnregister 2;
+       OLog 3 2 5 7; OLog 1 2 5 8; ORegister 6 4; OSetVerbosity 1 9; OLog 1 2 5 9; ORegister 7 0; OLog 2 2 5 10] = Some (k, evs)
+    /\ deliveries evs = [(0, 5, 2, 3, 2, 5, 7); (0, 1, 2, -1, 2, 5, 8); (0, 7, 2, 2, 2, 5, 10)]
+    /\ c_alloc (kc k) = 7 /\ c_num (kc k) = 4
+    /\ map (fun s => k_reg s) (c_slots (kc k)) = [1; 1; 1; 1; 0; 0; 0].
+Proof. cbv zeta. eexists; eexists; split; [vm_compute; reflexivity|]. repeat split; vm_compute; reflexivity. Qed.
+
+Example C19_ex_registry_finalize :
+  exists k evs,
+    krun slot0 false (k_init false) [ORegister 2 0; ORegister 3 1; ORegister 4 2; OUnregister 1; OFinalize; OLog 0 2 5 1; ORegister 0 0] = Some (k, evs)
+    /\ c_alloc (kc k) = 1 /\ deliveries evs = [(0, 99, 1, -1, 2, 5, 1)].
+Proof. eexists; eexists; split; [vm_compute; reflexivity|]. split; vm_compute; reflexivity. Qed.
+
+(* OBSERVATION (configurations with SC_ENABLE_DEBUG and without SC_ENABLE_PTHREAD only): the assertion
+   `package < sc_num_packages` of sc_log_indent_push_count uses the COUNT of packages as a bound on ids; with a hole
+   below a live package it fails for a registered package *)
+Example C19_ex_indent_assert_hole :
+  exists k evs,
+    krun slot0 true (k_init true) [ORegister 0 0; ORegister 0 0; OUnregister 0] = Some (k, evs)
+    /\ table_reg (abs (c_slots (kc k))) 1 = true
+    /\ aborts (sc_log_indent_push_count_npdbg (m_indent (c_slots (kc k))) (c_num (kc k)) (c_alloc (kc k)) 1 1) = true.
+Proof. eexists; eexists; split; [vm_compute; reflexivity|]. split; vm_compute; reflexivity. Qed.
+
+Example C19_ex_threshold_sequence :
+  exists st evs st' evs',
+    run false (init_state false) [OSetDefaults 2 1 4; ORegister 3 0] = Some (st, evs)
+    /\ lookup st 0 = Some (3, 0)
+    /\ run false st (flat_map (fun t => [OSetVerbosity 0 t; OLog 0 2 5 7]) [6; 5; -1; 9; 0]) = Some (st', evs')
+    /\ deliveries evs' = [(0, 3, 2, 0, 2, 5, 7); (0, 3, 2, 0, 2, 5, 7); (0, 3, 2, 0, 2, 5, 7)].
+Proof. eexists; eexists; eexists; eexists. split; [vm_compute; reflexivity|]. repeat split; vm_compute; reflexivity. Qed.
